@@ -786,6 +786,13 @@ _ARR = {"b": (1, True), "B": (1, False), "h": (2, True), "H": (2, False), "i": (
         "l": (8, True), "L": (8, False), "q": (8, True), "Q": (8, False)}
 
 
+class _Raw:
+    """an array item still held as its bytes (from frombytes)"""
+
+    def __init__(self, bs):
+        self.bs = bs
+
+
 class SymArray:
     """array.array whose items may be symbolic.  `swapped` records byteswap() calls, so
     tobytes()/frombytes() produce/consume the right byte order."""
@@ -830,6 +837,12 @@ class SymArray:
 
     def byteswap(self):
         self.swapped = not self.swapped
+        for x in self.items:
+            if isinstance(x, _Raw):
+                x.bs = x.bs[::-1]
+        # raw items: memory bytes reversed AND interpretation flag flipped would cancel out, so
+        # interpret raw bytes always natively (little-endian) after physically swapping them
+
 
     def _bytes_of(self, v, big):
         size = self.itemsize
@@ -848,6 +861,9 @@ class SymArray:
     def tobytes(self):
         out = []
         for v in self.items:
+            if isinstance(v, _Raw):
+                out.extend(v.bs)          # bytes in memory are unchanged by reading; byteswap reverses them
+                continue
             out.extend(self._bytes_of(v, big=self.swapped))
         r = SymBytes(out)
         c = r.concrete()
@@ -861,9 +877,12 @@ class SymArray:
         if n % self.itemsize:
             raise ValueError("bytes length not a multiple of item size")
         for k in range(0, n, self.itemsize):
-            bs = data.items[k:k + self.itemsize]
-            if not self.swapped:
-                bs = bs[::-1]       # native little-endian
+            # kept as raw bytes: the value depends on whether byteswap() is (later) applied
+            self.items.append(_Raw(list(data.items[k:k + self.itemsize])))
+
+    def _value(self, x):
+        if isinstance(x, _Raw):
+            bs = x.bs[::-1]      # memory bytes (already physically swapped by byteswap) read as native little-endian
             t = z3.IntVal(0)
             for b in bs:
                 t = t * 256 + _lift(b).t
@@ -871,24 +890,24 @@ class SymArray:
                 t = z3.If(t >= z3.IntVal(1 << (8 * self.itemsize - 1)), t - z3.IntVal(1 << (8 * self.itemsize)), t)
             v = SymNum(z3.simplify(t))
             c = v.concrete()
-            self.items.append(c if c is not None else v)
+            return c if c is not None else v
+        if self.swapped:
+            raise Unsupported("reading items of a byte-swapped array built from values")
+        return x
 
     def __len__(self):
         return len(self.items)
 
     def __iter__(self):
-        if self.swapped:
-            raise Unsupported("reading items of a byte-swapped array")
-        return iter(self.items)
+        return iter([self._value(x) for x in self.items])
 
     def __getitem__(self, i):
-        if self.swapped:
-            raise Unsupported("reading items of a byte-swapped array")
         if isinstance(i, slice):
             a = SymArray(self.typecode)
             a.items = self.items[i]
+            a.swapped = self.swapped
             return a
-        return self.items[i]
+        return self._value(self.items[i])
 
     def __setitem__(self, i, v):
         self.items[i] = self._check(v)
